@@ -36,7 +36,7 @@ Definition handler_step (s : sess) (j : nat) (veto : bool) (wr : wres) : option 
           end
       | K2 => (* write: status check; a reply is admitted while active-closing *)
           let is_reply := match k_kind h with KCall => true | _ => false end in
-          if admit (st s) is_reply then Some (setp (set_kpc h K2w))
+          if admits (st s) is_reply then Some (setp (set_kpc h K2w))
           else Some (setp (set_kres (set_kpc h K4) WrRefused))
       | K2w =>
           if wr_ok s wr then
